@@ -166,6 +166,9 @@ def syn_event(c):
 
         def run():
             try:
+                if c.get('prime'):       # replay of a parser-construction history event (see c10_worker.py)
+                    LANGS[c['lang']].Parser(language=LANGS[c['prime']])('p')
+                    return describe(LANGS[c['lang']].Parser()(text))
                 return describe(parser(c['lang'])(text))
             except pymc.parsermod.ParserError as ex:
                 return {'exc': type(ex).__name__, 'pos': int(ex.pos) if isinstance(ex.pos, int) else -1}
